@@ -433,6 +433,11 @@ struct World {
     handler_calls_in_step: u64,
     /// events N received from the attacker, and N's routing timer events, for the Coq model
     trace: Vec<MEv>,
+    /// a panic of B outside the pump (while it adds the block it just produced)
+    b_panic: Option<PanicRec>,
+    /// an attacker block with an unknown parent reached a node that treats it as an orphan
+    /// (initial_loading_completed = false, the setting of every real node): C05's finding orphan-branch
+    orphan_delivered: bool,
 }
 
 const MAX_CALLS_PER_STEP: u64 = 400_000;
@@ -487,6 +492,8 @@ impl World {
             n_disconnects: vec![],
             handler_calls_in_step: 0,
             trace: vec![],
+            b_panic: None,
+            orphan_delivered: false,
         };
         for c in ATT_CONNS {
             w.att.insert(c, AttConn::default());
@@ -553,10 +560,11 @@ impl World {
             let fresh = Block::deserialize_from_net(&bytes).map_err(|e| format!("{:?}", e))?;
             let mut fresh = fresh;
             fresh.generate().map_err(|e| format!("{:?}", e))?;
-            self.b
-                .consensus
-                .process_event(ConsensusEvent::BlockFetched { peer_index: 0, block: fresh })
-                .await;
+            let r = futures_catch(AssertUnwindSafe(self.b.consensus.process_event(ConsensusEvent::BlockFetched { peer_index: 0, block: fresh }))).await;
+            if let Err(m) = r {
+                self.b_panic = Some(take_panic("B", "consensus::process_event(BlockFetched)", m));
+                return Err("the honest node B panicked while adding its own next block".to_string());
+            }
         }
         Ok(())
     }
@@ -1322,7 +1330,8 @@ impl World {
         }
         // TwoGt: Block::validate does not bound the number of golden tickets (the last one counts) and the
         // block is accepted; UnknownParent: not rejected but parked / treated as an orphan (C05's business)
-        let must_reject = !matches!(k, BlockK::Valid | BlockK::FutureTs | BlockK::TwoGt | BlockK::UnknownParent(_));
+        // IdZero: never a candidate for the longest chain, kept as an unvalidated side block like any other sibling
+        let must_reject = !matches!(k, BlockK::Valid | BlockK::FutureTs | BlockK::TwoGt | BlockK::UnknownParent(_) | BlockK::IdZero);
         let bytes = block.serialize_for_net(BlockType::Full);
         Ok((block.hash, block.id, bytes, must_reject))
     }
@@ -1502,6 +1511,9 @@ fn classify(p: &PanicRec, act: &Act) -> Option<&'static str> {
     }
     if in_file("peer.rs") && m.contains("different public key") {
         return Some("assert-key-changed-panic");
+    }
+    if in_file("consensus_thread.rs") && m.contains("Option::unwrap()") && p.handler.contains("consensus::process_timer_event") {
+        return Some("gt-dropped-then-unwrap");
     }
     if in_file("network.rs") && m.contains("from slip should exist") {
         return Some("propagate-tx-without-inputs");
@@ -1715,6 +1727,9 @@ impl Runner {
                 match self.w.honest_block(txs).await {
                     Ok(b) => {
                         if let Err(e) = self.w.adopt_block(b, true).await {
+                            if let Some(p) = self.w.b_panic.take() {
+                                return Err(Stop::Panic(p));
+                            }
                             self.out.stats.push(("honest_block_error".to_string(), e));
                         }
                     }
@@ -1971,6 +1986,9 @@ async fn run_case(spec: &CaseSpec) -> CaseOut {
             Act::AServe(ServeK::AsAnnounced) => r.w.pending_fetches.first().and_then(|f| crafted_kind.get(&f.hash).cloned()).unwrap_or_default(),
             _ => String::new(),
         };
+        if served_kind.starts_with("UnknownParent") && !spec.loading_completed {
+            r.w.orphan_delivered = true;
+        }
         let before = if frame {
             match futures_catch(AssertUnwindSafe(r.w.digest(sender))).await {
                 Ok(d) => Some(d),
@@ -2000,7 +2018,10 @@ async fn run_case(spec: &CaseSpec) -> CaseOut {
             Ok(()) => {}
             Err(Stop::Panic(p)) => {
                 EVAL_ON.store(0, Ordering::Relaxed);
-                let id = classify(&p, act);
+                let mut id = classify(&p, act);
+                if id.is_none() && r.w.orphan_delivered {
+                    id = Some("orphan-block-follow-up");
+                }
                 let what = format!("{} panicked in {} at {}: {}", p.node, p.handler, p.loc, p.msg.chars().take(200).collect::<String>());
                 if let Some(last) = r.w.trace.last_mut() {
                     if last.outcome == 3 {
@@ -2113,6 +2134,12 @@ fn scripted(seed: u64) -> Vec<CaseSpec> {
     v.push(base_spec("block-dup-input", seed, cat(vec![vec![Act::HConnect], handshake(2, 0), vec![Act::AAnnounce(2, BlockK::DupInput), Act::AServe(ServeK::AsAnnounced)]])));
     v.push(base_spec("ghost-request-id-max", seed, cat(vec![vec![Act::HConnect], handshake(2, 0), vec![Act::AMsg(2, Msg::GhostReq(IdK::Max, HashK::Random, HashK::Random))]])));
     v.push(base_spec("block-id-gap", seed, cat(vec![vec![Act::HConnect], handshake(2, 0), vec![Act::AAnnounce(2, BlockK::WrongId), Act::AServe(ServeK::AsAnnounced), Act::HBlock(false)]])));
+    // a pooled golden ticket that targets the tip without solving it, then the production tick
+    v.push(base_spec("gt-unsolved-then-tick", seed, vec![Act::HConnect, Act::AConnect(2), Act::AMsg(2, Msg::Tx(TxK::GtLen(97))), Act::Tick(1000)]));
+    // C05's orphan branch with a crash at the end (initial_loading_completed = false as on every real node)
+    let mut c = base_spec("orphan-follow-up", seed, cat(vec![vec![Act::HConnect], handshake(2, 0), vec![Act::HTx, Act::AAnnounce(2, BlockK::UnknownParent(true)), Act::Tick(2100), Act::AConnect(3), Act::AMsg(3, Msg::Tx(TxK::Valid)), Act::HBlock(true), Act::AServe(ServeK::AsAnnounced), Act::Tick(5000), Act::HBlock(false), Act::Tick(5000)]]));
+    c.loading_completed = false;
+    v.push(c);
     // key change on an authenticated entry (listed under C17)
     v.push(base_spec("key-change", seed, cat(vec![handshake(2, 0), vec![Act::AMsg(2, Msg::Challenge), Act::AMsg(2, Msg::Response(RespK::Valid(1)))]])));
     // 10: unsolicited ghost chain on a full node
